@@ -15,7 +15,8 @@ pub assume_specification<Idx>[ Range::<Idx>::is_empty ](r: &Range<Idx>) -> (b: b
 
 #[verifier::external_body] pub struct Xstr { _p: u8 }
 impl Clone for Xstr { #[verifier::external_body] fn clone(&self) -> (r: Self) ensures r == *self { unimplemented!() } }
-impl From<String> for Xstr { #[verifier::external_body] fn from(s: String) -> Self { unimplemented!() } }
+pub uninterp spec fn xstr_chars(x: Xstr) -> Seq<char>;
+impl From<String> for Xstr { #[verifier::external_body] fn from(s: String) -> (r: Self) ensures xstr_chars(r) == s@ { unimplemented!() } }
 #[verifier::external_body] pub struct Xsubstr { _p: u8 }
 impl Clone for Xsubstr { #[verifier::external_body] fn clone(&self) -> (r: Self) ensures r == *self { unimplemented!() } }
 impl Default for Xsubstr { #[verifier::external_body] fn default() -> Self { unimplemented!() } }
